@@ -54,6 +54,10 @@ def run(ctx):
   _c12.assumes_sorted_in(ctx, ('apply_sustain_control_changes', 'trim_note_sequence', 'extract_subsequence', '_extract_subsequences', 'split_note_sequence',
                                 'split_note_sequence_on_time_changes', 'split_note_sequence_on_silence', 'transpose_note_sequence', 'stretch_note_sequence',
                                 'shift_sequence_times', 'quantize_note_sequence', 'quantize_note_sequence_absolute'), 'WELLFORMED/assumes-sorted')
+  from sa import pitfalls as _pf
+  _pf.apply(ctx, 'PITFALL', [ctx.func(SL + ':' + n_) for n_ in ('_extract_subsequences', 'trim_note_sequence', 'extract_subsequence', 'split_note_sequence',
+                                                                 'split_note_sequence_on_time_changes', 'split_note_sequence_on_silence')], ['previous-wraps'], {
+      'previous-wraps': 'an event before the first split time lands in the *last* piece, re-based to a negative time: the result is not well-formed'})
   own.classify_all(ctx)
   for name, (ptypes, consts, borrowed, _reason) in own.RETURNS_NEW.items():
     res = own.check_borrowed(ctx, SL + ':' + name, ptypes, consts, borrowed)
